@@ -16,3 +16,6 @@ Check Props.C12.C12_queue_bound :
 
 From Hannibal Require Chk.C03 Props.C03.
 Check Props.C03.C03_lifecycle : forall tr, accepts tr = true -> Chk.C03.chk_C03 tr = true.
+
+From Hannibal Require Chk.C14 Props.C14.
+Check Props.C14.C14_truth : forall tr, accepts tr = true -> Chk.C14.chk_C14 tr = true.
